@@ -512,6 +512,37 @@ pub fn message(r: &mut Rng, o: &MsgOpts) -> Message {
     }
 }
 
+/// a well-formed verbose (or network-trace) message with exactly `count` arguments (slices):
+/// the one-byte argument count at and next to its limit
+pub fn message_with_count(r: &mut Rng, nw: bool, count: usize) -> Message {
+    loop {
+        let mut m = message(r, &MsgOpts { storage: None, big: false, max_args: 3 });
+        let Some(eh) = m.extended_header.as_mut() else { continue };
+        match (&mut m.payload, nw) {
+            (PayloadContent::Verbose(args), false) => {
+                args.clear();
+                while args.len() < count {
+                    let a = argument(r, false);
+                    if arg_wire_len(&a) <= 40 {
+                        args.push(a);
+                    }
+                }
+            }
+            (PayloadContent::NetworkTrace(sl), true) => {
+                sl.clear();
+                for _ in 0..count {
+                    let k = r.below(6) as usize;
+                    sl.push(r.bytes(k));
+                }
+            }
+            _ => continue,
+        }
+        eh.argument_count = count as u8;
+        m.header.payload_length = payload_len(&m.payload) as u16;
+        return m;
+    }
+}
+
 pub fn filter(r: &mut Rng, ids: &[String]) -> DltFilterConfig {
     let id_vec = |r: &mut Rng| -> Vec<String> {
         let n = r.below(5) as usize;
